@@ -9,6 +9,7 @@ import (
 	"fmt"
 	"image"
 	"image/color"
+	"image/color/palette"
 	"image/draw"
 	"os"
 	"reflect"
@@ -108,6 +109,98 @@ func c15Source(c c15Cell) image.Image {
 		}
 		return img
 	}
+	if c.Full == "far" {
+		kind := c.Src
+		if strings.HasPrefix(kind, "YCbCr") {
+			// keep the chroma offset arithmetic of the standard library inside the planes: even origin
+			r = image.Rect(c.OX&^1, c.OY&^1, c.OX&^1+c.W, c.OY&^1+c.H)
+		}
+		pr := r
+		if c.Sub {
+			pr = image.Rect(r.Min.X-2, r.Min.Y-2, r.Max.X+4, r.Max.Y+2)
+		}
+		var img image.Image
+		if ratio, ok := ycbcrRatios[kind]; ok {
+			m := image.NewYCbCr(pr, ratio)
+			rng.Fill(m.Y)
+			rng.Fill(m.Cb)
+			rng.Fill(m.Cr)
+			img = m
+		} else {
+			switch kind {
+			case "Gray":
+				m := image.NewGray(pr)
+				rng.Fill(m.Pix)
+				img = m
+			case "Gray16":
+				m := image.NewGray16(pr)
+				rng.Fill(m.Pix)
+				img = m
+			case "Alpha":
+				m := image.NewAlpha(pr)
+				rng.Fill(m.Pix)
+				img = m
+			case "CMYK":
+				m := image.NewCMYK(pr)
+				rng.Fill(m.Pix)
+				img = m
+			case "Paletted":
+				m := image.NewPaletted(pr, palette.Plan9)
+				rng.Fill(m.Pix)
+				img = m
+			default:
+				d := newConcrete(kind, pr)
+				fillBytes(rng, pixOf(d))
+				img = d
+			}
+		}
+		if c.Sub {
+			return img.(subImager).SubImage(r)
+		}
+		return img
+	}
+	if strings.HasPrefix(c.Full, "ratio:") {
+		var n int
+		fmt.Sscanf(c.Full, "ratio:%d", &n)
+		pr := r
+		if c.Sub {
+			pr = image.Rect(r.Min.X-2, r.Min.Y-2, r.Max.X+4, r.Max.Y+2)
+		}
+		m := image.NewYCbCr(pr, image.YCbCrSubsampleRatio444)
+		rng.Fill(m.Y)
+		rng.Fill(m.Cb)
+		rng.Fill(m.Cr)
+		m.SubsampleRatio = image.YCbCrSubsampleRatio(n)
+		if c.Sub {
+			return m.SubImage(r)
+		}
+		return m
+	}
+	if strings.HasPrefix(c.Full, "nilpal:") {
+		var n int
+		fmt.Sscanf(c.Full, "nilpal:%d", &n)
+		pal := make(color.Palette, n)
+		used := n/2 + 1
+		if used > n {
+			used = n
+		}
+		for i := 0; i < used; i++ {
+			v := rng.U64()
+			pal[i] = color.NRGBA{R: uint8(v), G: uint8(v >> 8), B: uint8(v >> 16), A: uint8(v >> 24)}
+		}
+		pr := r
+		if c.Sub {
+			pr = image.Rect(r.Min.X-2, r.Min.Y-1, r.Max.X+3, r.Max.Y+2)
+		}
+		m := image.NewPaletted(pr, pal)
+		for i := range m.Pix {
+			m.Pix[i] = uint8(rng.Intn(used))
+		}
+		if c.Sub {
+			return m.SubImage(r)
+		}
+		return m
+	}
 	if strings.HasPrefix(c.Full, "pal:") {
 		var n int
 		fmt.Sscanf(c.Full, "pal:%d", &n)
@@ -151,14 +244,37 @@ func c15Source(c c15Cell) image.Image {
 	return newSourceMode(c.Src, r, mode, c.Content, rng)
 }
 
+// c15Run runs one cell; the cells at far coordinates under a generous bound (a 9 x 12 image takes
+// microseconds: two minutes without a result is reported as a conversion that does not return).
 func c15Run(c c15Cell) (bad bool, msg string) {
+	if c.Full != "far" {
+		return c15RunCell(c)
+	}
+	type res struct {
+		bad bool
+		msg string
+	}
+	ch := make(chan res, 1)
+	go func() {
+		b, m := c15RunCell(c)
+		ch <- res{b, m}
+	}()
+	select {
+	case x := <-ch:
+		return x.bad, x.msg
+	case <-time.After(2 * time.Minute):
+		return true, fmt.Sprintf("cell %+v: the conversion of a 9 x 12 image had not returned after two minutes", c)
+	}
+}
+
+func c15RunCell(c c15Cell) (bad bool, msg string) {
 	defer func() {
 		if p := recover(); p != nil {
 			bad, msg = true, fmt.Sprintf("panic in cell %+v: %v", c, p)
 		}
 	}()
 	src := c15Source(c)
-	if c.Full == "neg" {
+	if c.Full == "neg" || c.Full == "far" || strings.HasPrefix(c.Full, "ratio:") || strings.HasPrefix(c.Full, "nilpal:") {
 		// only where the standard library itself can read every pixel of the image
 		if !func() (ok bool) {
 			defer func() { _ = recover() }()
@@ -366,6 +482,19 @@ func c15Cells(seed int64, thorough, race bool) []c15Cell {
 				for k, win := range [][4]int{{-16, -16, 16, 16}, {-7, -5, 9, 11}, {-13, -11, -2, -3}, {-5, -9, 4, 1}, {-1, -1, 3, 3}, {-15, 2, -6, 14}} {
 					cells = append(cells, c15Cell{Helper: h, Src: sk, Full: "neg", Sub: k > 0, OX: win[0], OY: win[1], W: win[2] - win[0], H: win[3] - win[1], Par: 1 + (k*3)%7, Seed: rng.U64()})
 				}
+			}
+			// images far from the origin (coordinates beyond the 32-bit range), every concrete source kind
+			for k, sk := range []string{"NRGBA", "RGBA", "NRGBA64", "RGBA64", "Gray", "Gray16", "Alpha", "CMYK", "Paletted", "YCbCr444", "YCbCr420"} {
+				for j, org := range [][2]int{{0, -(1 << 32) - 2}, {(1 << 32) + 6, 4}, {-(1 << 31) - 8, (1 << 31) + 2}, {1 << 40, -(1 << 40)}} {
+					cells = append(cells, c15Cell{Helper: h, Src: sk, Full: "far", Sub: (k+j)%2 == 1, OX: org[0], OY: org[1], W: 9, H: 12, Par: 1 + (k+2*j)%6, Seed: rng.U64()})
+				}
+			}
+			// palettes with slots that were never filled in (nil) beyond the indices the pixels use, and
+			// YCbCr images whose subsample ratio is none of the six defined ones (the standard library
+			// reads those as 4:4:4)
+			for k := 0; k < 4; k++ {
+				cells = append(cells, c15Cell{Helper: h, Src: "Paletted", Full: fmt.Sprintf("nilpal:%d", []int{16, 200, 256, 3}[k]), Sub: k%2 == 1, OX: 2, OY: 1, W: 23, H: 14, Par: 1 + k, Seed: rng.U64()})
+				cells = append(cells, c15Cell{Helper: h, Src: "YCbCr444", Full: fmt.Sprintf("ratio:%d", []int{6, -1, 7, 100}[k]), Sub: k%2 == 1, OX: 2, OY: 1, W: 23, H: 14, Par: 1 + k, Seed: rng.U64()})
 			}
 			for k, n := range []int{257, 258, 300, 512, 1000, 256, 255} {
 				cells = append(cells, c15Cell{Helper: h, Src: "Paletted", Full: fmt.Sprintf("pal:%d", n), Sub: k%2 == 1, OX: 2, OY: 1, W: 23, H: 14, Par: 1 + k%5, Seed: rng.U64()})
